@@ -164,7 +164,7 @@ class HVPerformAction(Contract):
             "services": AbsVal(ctx.fresh("hv_services", DictSort), "dict"),
             "os": AbsVal(ctx.fresh("hv_os", DictSort), "dict"),
             "processes": AbsVal(ctx.fresh("hv_processes", DictSort), "dict"),
-            "access": AbsVal(ctx.fresh("hv_access", DictSort), "dict"),
+            "access": SymV(ctx.fresh("hv_access", z3.RealSort()), "real"),
             "discovered": AbsVal(EMPTY_DICT, "dict"),
             "newly_discovered": AbsVal(EMPTY_DICT, "dict"),
         }
